@@ -30,6 +30,13 @@ def gen(rng, tier):
         pwd, wrong = rbytes(rng, sl % 9), b"x"
         salt = argon2_prefixed_salt(rng, sl) if sl % 5 == 0 else rbytes(rng, sl)
         cs.append(Case("pwhash_obj 1 %d %d %s %s %s" % (1024 * (8 + sl % 5), hl, hx(pwd), hx(salt), hx(wrong)), cls="pwhash_obj/salt%%=%d" % (sl % 4)))
+    # the caller's salt is what is hashed AND what the string records, whatever `Config::salt_length` says (it only sizes the salt that
+    # `hash()` draws itself): salts longer / shorter than the configured length must still give self-describing, verifying strings
+    for sl, csl in ((17, 16), (24, 16), (32, 16), (20, 8), (16, 32), (8, 16), (64, 9), (16, 16)):
+        pwd, salt = rbytes(rng, 7), rbytes(rng, sl)
+        cs.append(Case("pwhash_obj 1 8192 32 %s %s %s %d" % (hx(pwd), hx(salt), hx(b"x"), csl), cls="pwhash_obj/salt-vs-config",
+                       expect=(lambda a, sh=b64(salt): " verify=okerr " in a and " rt " in a and ("$" + sh + "$") in a),
+                       meta={"why": "hash_with_salt with a %d-byte salt under Config::salt_length = %d: not self-describing / not verifying / other salt recorded" % (sl, csl)}))
     # parse → re-encode is the identity on canonical strings of both algorithms, any salt / hash length
     for s, alg, t, m, salt, h in valid_strings(rng, 120 if tier == "quick" else 3000):
         cs.append(Case("pwhash_parse %s" % shex(s), cls="pwhash_parse/" + alg, expect="ok " + s, meta={"why": "parse then re-encode changed the string"}))
